@@ -14,6 +14,14 @@ Binding B: random lists/sets up to length 8 (duplicates, 1 versus 1.0), ints
 up to 2^80 and the whole word/shift grid are run through the interpreted
 functions; every call is logged with what it returned and the log is
 validated by TLC against Lib_Trace.tla (all arithmetic in limbs, by TLC).
+
+Round 3: the element universe is every int, decimal and string of the
+language (LibOps "bint" / "bdec" / "text": limb integers, exact dyadic
+rationals, code point sequences).  Both bindings hold ints above 2^53 beside
+the neighbouring decimals, decimals of tiny magnitude (2^-41 ...: sums that
+are exact doubles with 13+ decimal places), the doubles of 0.1 / 0.2 / 0.3,
+strings of several characters in both cases, and pow with exponents up to
+2^16 (and up to 2^70 for the bases 0, 1, -1).
 """
 import json
 import multiprocessing
@@ -71,6 +79,41 @@ def unbig(d):
     return d["sg"] * n
 
 
+def dec_text(n, e):
+    """the exact decimal expansion of n / 2^e (a finite one: n * 5^e / 10^e)"""
+    sign = "-" if n < 0 else ""
+    digits = str(abs(n) * 5 ** e)
+    if e == 0:
+        return sign + digits + ".0"
+    digits = digits.rjust(e + 1, "0")
+    return sign + digits[:-e] + "." + digits[-e:]
+
+
+def text_of(x):
+    """model string -> Python string"""
+    if x["k"] == "str":
+        return ALPHA[x["v"]]
+    return "".join(chr(c) for c in x["cp"])
+
+
+def qfrac(x):
+    """model number -> its exact value"""
+    k = x["k"]
+    if k == "int":
+        return Fraction(x["v"])
+    if k == "dec":
+        return Fraction(x["v"], 2)
+    if k == "bint":
+        return Fraction(unbig(x["big"]))
+    if k == "bdec":
+        return Fraction(unbig(x["num"]), 1 << x["e"])
+    raise ValueError(x)
+
+
+NUMK = ("int", "dec", "bint", "bdec")
+STRK = ("str", "text")
+
+
 def lit(x):
     """model scalar / nested list -> checkerlang source literal"""
     k = x["k"]
@@ -78,11 +121,34 @@ def lit(x):
         return str(x["v"])
     if k == "dec":
         return repr(x["v"] / 2.0)
+    if k == "bint":
+        return str(unbig(x["big"]))
+    if k == "bdec":
+        return dec_text(unbig(x["num"]), x["e"])
     if k == "str":
         return "'" + ALPHA[x["v"]] + "'"
+    if k == "text":
+        return absval.quote(text_of(x))
     if k == "list":
         return "[" + ", ".join(lit(i) for i in x["items"]) + "]"
     raise ValueError(x)
+
+
+def mk_int(n):
+    """Python int -> model scalar (the compact kind when it exists)"""
+    return {"k": "int", "v": n} if abs(n) < (1 << 30) else {"k": "bint", "big": big(n)}
+
+
+def mk_dec(x):
+    """finite Python float -> model scalar: halves when possible, else the exact dyadic rational in lowest terms"""
+    num, den = x.as_integer_ratio()
+    if den <= 2 and abs(num) * (2 // den) < (1 << 30):
+        return {"k": "dec", "v": num * (2 // den)}
+    return {"k": "bdec", "num": big(num), "e": den.bit_length() - 1}
+
+
+def mk_str(t):
+    return {"k": "str", "v": CODE[t]} if t in CODE else {"k": "text", "cp": [ord(c) for c in t]}
 
 
 def lits(seq, form="list"):
@@ -94,19 +160,20 @@ OTHER = {"k": "other", "v": 0}
 
 
 def enc(p):
-    """absval abstraction of a ckl value -> model scalar (or OTHER)."""
+    """absval abstraction of a ckl value -> model scalar (or OTHER); every int, finite decimal and string has
+    exactly one encoding"""
     if isinstance(p, bool) or p is None:
         return OTHER
     if isinstance(p, int):
-        return {"k": "int", "v": p} if abs(p) < (1 << 30) else OTHER
+        return mk_int(p)
     if isinstance(p, tuple) and len(p) == 2:
         if p[0] == "dec":
-            h = p[1] * 2
-            if h == int(h) and abs(h) < (1 << 30):
-                return {"k": "dec", "v": int(h)}
-            return OTHER
+            x = p[1]
+            if not isinstance(x, float) or x != x or x in (float("inf"), float("-inf")):
+                return OTHER
+            return mk_dec(x)
         if p[0] == "str":
-            return {"k": "str", "v": CODE[p[1]]} if p[1] in CODE else OTHER
+            return mk_str(p[1]) if isinstance(p[1], str) else OTHER
         if p[0] == "list":
             return {"k": "list", "items": [enc(i) for i in p[1]]}
     return OTHER
@@ -153,11 +220,12 @@ def enc_int(p):
 
 
 def cls(x):
-    """equality class of a model scalar: 1 and 1.0 are one element"""
-    if x["k"] == "int":
-        return ("num", 2 * x["v"])
-    if x["k"] == "dec":
-        return ("num", x["v"])
+    """equality class of a model scalar: 1 and 1.0 are one element (the exact values are compared: 2^53 + 1 and
+    the decimal 2^53 are two)"""
+    if x["k"] in NUMK:
+        return ("num", qfrac(x))
+    if x["k"] in STRK:
+        return ("str", text_of(x))
     return (x["k"], json.dumps(x, sort_keys=True))
 
 
@@ -195,7 +263,12 @@ class Impl:
 
 
 def show(o):
-    return repr(o)[:160]
+    try:
+        return repr(o)[:160]
+    except ValueError:            # the host refuses to print an int of more than 4300 digits
+        if len(o) > 1 and isinstance(o[1], int):
+            return f"({o[0]!r}, <an int of {o[1].bit_length()} bits>)"
+        return f"({o[0]!r}, <a value holding an int too long to print>)"
 
 
 # -------------------------------------------------- binding A: check forms
@@ -229,7 +302,7 @@ def fits(o, want):
             return False, "Equal duplicates inside a set"
         return set(cl) == set(cls(i) for i in want["v"]), ""
     if t == "ints":
-        return v == ("list", tuple(want["v"])), ""
+        return absval.strict_eq(v, ("list", tuple(want["v"]))), ""
     if t == "int":                      # exact int of any size
         return (isinstance(v, int) and not isinstance(v, bool) and v == int(want["v"])), ""
     if t == "num":                      # rational n/d; int flag if given
@@ -238,18 +311,27 @@ def fits(o, want):
             return False, "not a number"
         if want.get("int") is not None and isinstance(v, int) != want["int"]:
             return False, "int/decimal kind"
-        exp = Fraction(want["n"], want["d"])
-        d = want["d"]
+        exp = Fraction(int(want["n"]), int(want["d"]))
+        if "tol" in want:               # the model says whether the double arithmetic is exact on this input
+            if want["exact"]:
+                return q == exp, "(to the last bit: every step of the double arithmetic is exact here)"
+            return abs(q - exp) <= Fraction(int(want["tol"][0]), int(want["tol"][1])), ""
+        d = int(want["d"])
         if want.get("exact") or (d & (d - 1)) == 0:
             return q == exp, ""
         return abs(q - exp) <= Fraction(1, 10 ** 9) * abs(exp), ""
     if t == "key":                      # element with this order key
         e = enc(v)
         if e["k"] not in ("int", "dec", "str"):
-            return False, "not an element"
+            return False, "not an element of the list"
         if (e["k"] != "str") != want["numeric"]:
             return False, "kind"
         return key_of(e) == want["key"], ""
+    if t == "el":                       # an element Equal to this one (1 or 1.0: not stated which)
+        e = enc(v)
+        if e["k"] not in NUMK + STRK:
+            return False, "not an element"
+        return cls(e) == cls(want["el"]), ""
     raise MachineryError("unknown expectation " + t)
 
 
@@ -271,7 +353,7 @@ def canon(o):
     q = num_value(o[1])
     if q is not None:
         return ("num", q)
-    return ("val", o[1])
+    return ("val", absval.tagged(o[1]))
 
 
 ENVS = (False, True)          # the environments every law is replayed in (legacy flag)
@@ -426,6 +508,85 @@ def check_bits(ck, r, seen):
         ck.expect(src, want, "bitwise")     # shift counts >= 32 included: the mathematical result is the word 0
 
 
+def check_wide(ck, r):
+    """the set algebra, unique and grouped over ints above 2^53 beside the neighbouring decimals"""
+    la, lb = r["la"], r["lb"]
+    for fa, fb in (("list", "list"), ("set", "set"), ("list", "set")):
+        A, B = lits(la, fa), lits(lb, fb)
+        for op in ("union", "intersection", "diff", "symmetric_diff"):
+            ck.expect(f"{op}({A}, {B})", {"t": "set", "v": r[op]}, "set-algebra")
+    if lb:
+        return
+    A = lits(la)
+    ck.expect(f"unique({A})", {"t": "seq", "v": r["unique"]}, "unique")
+    ck.expect(f"grouped({A})", {"t": "seqseq", "v": r["grouped"]}, "textbook")
+
+
+def qrec(q):
+    """exported dyadic rational {num: limbs, e: k} -> Fraction"""
+    return Fraction(unbig(q["num"]), 1 << q["e"])
+
+
+E9 = Fraction(1, 10 ** 9)
+
+
+def numwant(value, exact, tol, isint=None):
+    w = {"t": "num", "n": str(value.numerator), "d": str(value.denominator), "exact": bool(exact),
+         "tol": [str(tol.numerator), str(tol.denominator)]}
+    if isint is not None:
+        w["int"] = isint
+    return w
+
+
+def check_xperm(ck, r):
+    """every permutation of one multiset of wide numbers / tiny decimals / strings of several characters: the
+    results must not depend on the order (the statement) and equal the reference value - to the last bit
+    where the model says the double arithmetic is exact, else within 1e-9 of the magnitudes involved"""
+    numeric = r["numeric"]
+    n = len(r["s"])
+    wants = {f: {"t": "el", "el": r[f]} for f in ("median_low", "median_high", "min", "max")}
+    fns = ["median_low", "median_high", "min", "max"]
+    if numeric:
+        total, asum = qrec(r["sum"]["q"]), qrec(r["sum"]["abs"])
+        wants["mean"] = numwant(total / n, r["mean"]["exact"], asum / n * E9)
+        lo, hi = qfrac(r["median_low"]), qfrac(r["median_high"])
+        wants["median"] = numwant(qrec(r["median"]["twice"]) / 2, r["median"]["exact"], (abs(lo) + abs(hi)) / 2 * E9)
+        fns = ["mean", "median"] + fns
+    for f in fns:
+        want = wants[f]
+        for impl in ck.impls:
+            tag = env_tag(impl.legacy)
+            first = None
+            for p in r["perms"]:
+                src = f"{f}({lits(p)})"
+                ck.nchecks += 1
+                o = impl.call(src)
+                if first is None:
+                    first = (src, o)
+                elif canon(o) != canon(first[1]):
+                    ck.run.violation(f"{tag}{src} vs {first[0]}",
+                                     f"perm-variance: {tag}{src} = {show(o)} but {first[0]} = {show(first[1])}",
+                                     {"kind": "perm", "f": f, "p": p, "q": r["perms"][0], "legacy": impl.legacy})
+                ok, note = fits(o, want)
+                if not ok:
+                    if STRICT_STAT_VALUES or o[0] == "host":
+                        ck.run.violation(tag + src, f"definition: {tag}expected {json.dumps(want)[:300]} got {show(o)} {note}",
+                                         {"kind": "expect", "src": src, "want": want, "cat": "definition",
+                                          "legacy": impl.legacy})
+                    else:
+                        ck.run.drift("stat-value-vs-reference", {"src": tag + src, "got": show(o), "reference": want})
+    if numeric:
+        prod = qrec(r["prod"]["q"])
+        for f, want in (("sum", numwant(total, r["sum"]["exact"], asum * E9, r["sum"]["int"])),
+                        ("prod", numwant(prod, r["prod"]["exact"], abs(prod) * E9, r["prod"]["int"]))):
+            for p in r["perms"]:
+                ck.expect(f"{f}({lits(p)})", want, "textbook")
+
+
+def check_pow(ck, r):
+    ck.expect(f"pow({unbig(r['a'])}, {unbig(r['k'])})", {"t": "int", "v": str(unbig(r["pow"]))}, "exact-int")
+
+
 class _Collect:
     """stands in for Run inside a worker process"""
 
@@ -491,11 +652,45 @@ def plan_events(rng, n_each):
             out.append({"k": "str", "v": rng.randint(1, 4)})
         return out
 
+    # values where a conversion between int and double is lossy, and decimals with many places
+    CENTRES = [1 << 53, 1 << 53, 1 << 63, 1 << 64, 10 ** 20, 1 << 80]
+    TINY = [(1, 41), (3, 41), (-1, 41), (1, 44), (5, 44), (1, 60), (-3, 60), (1, 20), (7, 20)]       # m / 2^e
+    TEXTS = ["", "A", "a", "Ab", "aB", "ab", "AB", "B", "b", "aa", "10", "9", "1", "Z", "z", "\u00e4", "a b", " a"]
+
+    def widepool():
+        """ints around a power of two beyond 2^53 beside the decimals next to them"""
+        c = rng.choice(CENTRES)
+        out = []
+        for d in rng.sample([-2, -1, 0, 1, 2, 3], rng.randint(2, 4)):
+            out.append(mk_int(c + d))
+        for d in rng.sample([-2, 0, 0, 2], rng.randint(1, 2)):
+            out.append(mk_dec(float(c) + d) if c == 1 << 53 else mk_dec(float(c)))
+        if rng.random() < 0.3:
+            out.append(mk_int(-(c + 1)))
+            out.append(mk_dec(-float(c)))
+        if rng.random() < 0.4:
+            out.append(mk_int(rng.randint(-3, 6)))
+        return out
+
+    def tinypool():
+        """decimals of tiny magnitude (sums that are exact doubles with many decimal places), the doubles of
+        0.1 / 0.2 / 0.3 (inexact sums: compared with a tolerance), beside 0, 1, 1.0, 2"""
+        out = [mk_dec(m / float(1 << e)) for m, e in rng.sample(TINY, rng.randint(2, 4))]
+        if rng.random() < 0.4:
+            out += [mk_dec(x) for x in rng.sample([0.1, 0.2, 0.3, 0.7, 1e-13, 2.5e-12], 2)]
+        out += [mk_int(v) for v in rng.sample([0, 1, 2, -1], rng.randint(0, 2))]
+        if rng.random() < 0.3:
+            out.append(mk_dec(1.0))
+        return out
+
+    def textpool():
+        return [mk_str(t) for t in rng.sample(TEXTS, rng.randint(2, 6))]
+
     def lst(pl, lo=0, hi=8):
         return [dict(rng.choice(pl)) for _ in range(rng.randint(lo, hi))]
 
     def numpool():
-        return [x for x in pool() if x["k"] != "str"] or [{"k": "int", "v": 1}]
+        return [x for x in pool() if x["k"] in NUMK] or [{"k": "int", "v": 1}]
 
     def bigint():
         c = rng.random()
@@ -506,7 +701,7 @@ def plan_events(rng, n_each):
         v = rng.getrandbits(bits)
         return -v if rng.random() < 0.35 else v
 
-    for _ in range(n_each):
+    for rnd in range(n_each):
         pl = pool()
         for op in ("union", "intersection", "diff", "symmetric_diff"):
             P.append({"op": op, "a": lst(pl), "b": lst(pl),
@@ -579,6 +774,43 @@ def plan_events(rng, n_each):
         v = bigint()
         P.append({"op": "abs", "a": v, "b": 0, "k": 0})
         P.append({"op": "sign", "a": v, "b": 0, "k": 0})
+        # ---- round 3: the wide universe.  One flavour per round: lossy conversions / tiny decimals / texts
+        flavour = rnd % 3
+        if flavour == 0:
+            wp = widepool()
+        elif flavour == 1:
+            wp = tinypool()
+        else:
+            wp = textpool() + ([mk_int(1), mk_dec(1.0)] if rng.random() < 0.5 else [])
+        if rng.random() < 0.35:
+            wp = wp + rng.sample(pl, min(len(pl), 2))                  # mixed with the compact values
+        for op in rng.sample(["union", "intersection", "diff", "symmetric_diff"], 2):
+            P.append({"op": op, "a": lst(wp, 0, 6), "b": lst(wp, 0, 6),
+                      "fa": rng.choice(["list", "set"]), "fb": rng.choice(["list", "set"])})
+        for op in ("unique", "grouped"):
+            P.append({"op": op, "a": lst(wp, 0, 7)})
+        P.append({"op": rng.choice(["reverse", "pairs", "enumerate", "flatten"]), "a": lst(wp, 0, 5)})
+        homo = [x for x in wp if x["k"] in (STRK if flavour == 2 else NUMK)]
+        hl = lst(homo, 1, 6)
+        sh = list(hl)
+        rng.shuffle(sh)
+        for op in ("median_low", "median_high", "min", "max") + (() if flavour == 2 else ("mean", "median")):
+            P.append({"op": op, "a": hl})
+            if sh != hl:
+                P.append({"op": op, "a": sh})
+        if flavour != 2:
+            P.append({"op": "sum", "a": hl})
+            P.append({"op": "prod", "a": hl})
+            if sh != hl:
+                P.append({"op": "sum", "a": sh})
+            x = dict(rng.choice(homo))                                  # the laws that hold to the last bit
+            P.append({"op": "sum", "a": [x]})
+            P.append({"op": "sum", "a": [x, dict(x)]})
+            P.append({"op": "prod", "a": [x]})
+            P.append({"op": "mean", "a": [x, dict(x)]})
+        if rnd % 4 == 0:                                               # a random rung of the exponent ladder
+            P.append({"op": "powx", "a": rng.choice([-1, 1]) * rng.randint(2, 20),
+                      "k": rng.choice([97, 200, 333, 500, 1000, 1500, 2000])})
     for a in ([], [{"k": "int", "v": 1}], [{"k": "int", "v": 1}, {"k": "dec", "v": 2}, {"k": "str", "v": 1}]):
         for n in (1, 3):                       # the empty list and lists that fit into one piece
             P.append({"op": "chunks", "a": a, "n": n})
@@ -589,6 +821,39 @@ def plan_events(rng, n_each):
                  (1 << 80, 3), (3 * (1 << 70), 9 * (1 << 60)), ((1 << 80) - 1, (1 << 40) - 1)):
         P.append({"op": "gcd", "a": a, "b": b, "k": 0})
         P.append({"op": "lcm", "a": a, "b": b, "k": 0})
+    # the anchors of round 3: 2^53 + 1 beside the decimal 2^53, sums of tiny decimals, strings that tie when
+    # the case is ignored
+    i53, d53 = mk_int((1 << 53) + 1), mk_dec(float(1 << 53))
+    i64, d64 = mk_int((1 << 64) + 1), mk_dec(float(1 << 64))
+    for x, y in ((i53, d53), (i64, d64), (mk_int(1 << 53), d53)):
+        for op in ("union", "intersection", "diff", "symmetric_diff"):
+            for fa in ("list", "set"):
+                P.append({"op": op, "a": [x], "b": [y], "fa": fa, "fb": fa})
+        for a in ([x, y], [y, x]):
+            for op in ("unique", "grouped", "min", "max", "median_low", "median_high", "median", "mean", "sum"):
+                P.append({"op": op, "a": a})
+    t41, t44 = mk_dec(2.0 ** -41), mk_dec(5 * 2.0 ** -44)
+    for a in ([t41], [t41, t41], [t41, t44], [mk_int(1), t41], [t41, mk_int(0)], [t44, mk_int(2)],
+              [mk_dec(0.1), mk_dec(0.2)], [mk_dec(0.1), mk_dec(0.2), mk_dec(0.3)], [mk_dec(1e-13), mk_dec(2e-13)]):
+        for op in ("sum", "prod", "mean", "median", "min", "max"):
+            P.append({"op": op, "a": a})
+            if len(a) > 1:
+                P.append({"op": op, "a": a[::-1]})
+    for a in (["a", "A"], ["A", "a"], ["ab", "aB", "Ab"], ["Ab", "ab", "aB"], ["", "a"], ["10", "9", "1"],
+              ["b", "B", "a", "A"], ["A", "a", "B", "b"]):
+        tl = [mk_str(t) for t in a]
+        for op in ("min", "max", "median_low", "median_high", "unique", "grouped"):
+            P.append({"op": op, "a": tl})
+    # the exponent ladder of pow: small bases, exponents up to 2^16; the bases 0, 1, -1 up to 2^70
+    for a in (2, -2, 3, -3, 7, 10, -10, 12):
+        for k in (500, 1000, 1023, 1024, 1025, 2047, 4095, 4096, 4097, 5000, 8192, 10000):
+            P.append({"op": "powx", "a": a, "k": k})
+    for a, k in ((2, 1 << 15), (2, (1 << 15) + 1), (2, 1 << 16), (-2, (1 << 16) + 1), (10, 1 << 16), (3, 20000),
+                 (1 << 64, 1000), (-(1 << 64), 1001), ((1 << 80) - 1, 500), (10 ** 20, 700), (65537, 3000)):
+        P.append({"op": "powx", "a": a, "k": k})
+    for a in (0, 1, -1):
+        for k in (0, 1, 4097, 1 << 16, 1 << 70, (1 << 70) + 1, 10 ** 20, (1 << 80) - 1):
+            P.append({"op": "powx", "a": a, "k": k})
     # the whole word / shift grid of the quantifier
     for a in WORDS:
         P.append({"op": "bit_not", "a": a, "b": 0, "n": 0})
@@ -632,7 +897,7 @@ def source(p):
         return f"reduce({S}, {BINF[p['f']]})"
     if op in ("isum", "iprod"):
         return ("sum" if op == "isum" else "prod") + "([" + ", ".join(str(x) for x in p["a"]) + "])"
-    if op == "pow":
+    if op in ("pow", "powx"):
         return f"pow({p['a']}, {p['k']})"
     if op in ("gcd", "lcm"):
         return f"{op}({p['a']}, {p['b']})"
@@ -655,6 +920,10 @@ def observe(impl, p):
     e = {k: v for k, v in p.items() if k not in ("fa", "fb", "form")}
     if op in ("isum", "iprod"):
         e["a"] = [big(x) for x in p["a"]]
+    elif op == "powx":
+        e["a"] = big(p["a"])
+        e["kb"] = big(p["k"])
+        del e["k"]
     elif op in ("pow", "gcd", "lcm", "abs", "sign") or op in BITOPS:
         e["a"] = big(p["a"])
         e["b"] = big(p["b"])
@@ -725,6 +994,22 @@ def validate(run, events, srcs, outs, plans):
     for b in res.records("DRIFT"):
         k = b["l"] - 1
         run.drift("shift-count>=32", {"src": srcs[k], "got": show(outs[k])})
+    # powers too long for TLC to multiply out were validated through necessary conditions (residues modulo a
+    # dozen primes, sign, length bracket: LibOps!PowPlausible); these are compared with the host's exact
+    # power as well (the one comparison of this check that the model cannot make itself within the time of a tier)
+    bad = {b["l"] for b in res.records("BAD")}
+    nnec = 0
+    for b in res.records("NOTE"):
+        k = b["l"] - 1
+        if b["why"] != "pow-necessary-conditions" or b["l"] in bad:
+            continue
+        nnec += 1
+        p, o = plans[k][0], outs[k]
+        if not (o[0] == "val" and isinstance(o[1], int) and not isinstance(o[1], bool) and o[1] == p["a"] ** p["k"]):
+            run.violation(srcs[k], f"exact-int: the result {show(o)} has the residues, sign and length of the power "
+                                   "but is not the power",
+                          {"kind": "trace-call", "plan": p, "legacy": plans[k][1]})
+    res.pow_by_necessary_conditions = nnec
     return res
 
 
@@ -735,7 +1020,7 @@ def category(op):
         return "unique"
     if op in ("mean", "median", "median_low", "median_high", "min", "max"):
         return "definition"
-    if op in ("pow", "gcd", "lcm", "abs", "sign"):
+    if op in ("pow", "powx", "gcd", "lcm", "abs", "sign"):
         return "exact-int"
     if op in BITOPS:
         return "bitwise"
@@ -774,6 +1059,22 @@ def probe_drift(run, impl):
         run.drift("outside-the-defined-domain", {"src": src, "got": show(o)})
 
 
+def actions_taken(res):
+    """how often each action of Lib.tla was taken, counted from the exported records (every Apply step exports
+    one record; TLC may print a record more than once, so distinct records are counted)"""
+    firsts, total, fams = set(), 0, 0
+    for tag, recs in res.printed.items():
+        distinct = {json.dumps(r, sort_keys=True) for r in recs}
+        if not distinct:
+            continue
+        fams += 1
+        total += len(distinct)
+        for r in distinct:
+            d = json.loads(r)
+            firsts.add(tag + json.dumps([d.get(k) for k in ("la", "s", "a") if k in d][:1], sort_keys=True))
+    return {"Init": fams, "Pick1": len(firsts), "Pick2": total, "Apply": total}
+
+
 # ------------------------------------------------------------------ run
 def run(run):
     quick = run.tier == "quick"
@@ -793,13 +1094,18 @@ def run(run):
     th.start()
 
     cfg = "Lib_quick" if quick else "Lib_thorough"
-    res = run_tlc("Lib", cfg, workers=10, coverage=True, timeout=3000)
+    # (no -coverage: it tripled the CPU time of this exporting run; the actions are counted from the records)
+    res = run_tlc("Lib", cfg, workers=10, coverage=False, timeout=3000)
+    res.coverage = actions_taken(res)
+    never = [a for a, n in res.coverage.items() if n == 0]
+    if never:
+        raise MachineryError("Lib.tla: actions never taken: " + ", ".join(never))
     run.add_tlc(res, f"Lib driver machine, laws as invariants ({cfg})")
 
     ck = Checker(run)
     ncases = 0
     seen = set()
-    handlers = ["PAIR", "FLAT", "RANGE", "FUNC", "PERM", "NUM"]
+    handlers = ["PAIR", "FLAT", "RANGE", "FUNC", "PERM", "NUM", "WIDE", "XPERM", "POW"]
     nperms = 0
     for tag in handlers:
         recs = res.records(tag)
@@ -812,12 +1118,11 @@ def run(run):
                 continue
             seen.add(key)
             uniq.append(r)
-        run.sample({tag: {k: uniq[len(uniq) // 2][k] for k in list(uniq[0])[:6]}})
-        if tag == "PERM":
+        run.sample({tag: {k: uniq[len(uniq) // 2][k] for k in list(uniq[0])[:6]}}, limit=12)
+        if tag in ("PERM", "XPERM"):
             uniq.sort(key=lambda r: -len(r["perms"]))      # long jobs first
-            nperms = sum(len(r["perms"]) for r in uniq)
-        replay_parallel(ck, "check_" + {"FLAT": "flat", "PAIR": "pair", "RANGE": "range", "FUNC": "func",
-                                        "PERM": "perm", "NUM": "num"}[tag], uniq)
+            nperms += sum(len(r["perms"]) for r in uniq)
+        replay_parallel(ck, "check_" + tag.lower(), uniq)
         ncases += len(uniq)
     bseen = set()
     recs = res.records("BITS")
@@ -826,11 +1131,11 @@ def run(run):
     for r in recs:
         check_bits(ck, r, bseen)
     ncases += len(bseen)
-    run.sample({"BITS": recs[len(recs) // 2]})
+    run.sample({"BITS": recs[len(recs) // 2]}, limit=12)
 
     plans = plan_events(rng, 200 if quick else 1500)
     ncalls, events, srcs, tres = record_and_validate(run, plans)
-    run.sample({"TRACE": events[:3]})
+    run.sample({"TRACE": events[:3]}, limit=12)
     probe_drift(run, ck.impl)
 
     th.join()
@@ -846,6 +1151,7 @@ def run(run):
                        "call texts recorded and validated by Lib_Trace; evaluations counts interpreter calls")
     run.cov["exhaustive"] = True
     run.cov["permutations_replayed"] = nperms
+    run.cov["powers_validated_by_necessary_conditions_and_host_power"] = tres.pow_by_necessary_conditions
     run.cov["bounds"] = {"cfg": cfg, "trace_events": len(events), "word_grid": len(WORDS), "shifts": "0..40",
                          "environments": ["modules required unqualified", "legacy base environment"]}
     run.assumptions += [
@@ -860,9 +1166,18 @@ def run(run):
         "not compared (drift probes); chunks of an empty list is compared: no piece",
         "every law is replayed in two environments: Interpreter(True, False) + `require M unqualified` and the "
         "legacy base environment Interpreter(True, True) as it comes (keys 'legacy: ...')",
-        "decimals in lists are multiples of 0.5 (exact doubles); mean is compared with 1e-9 relative "
+        "compact lists: decimals are multiples of 0.5 (exact doubles); mean is compared with 1e-9 relative "
         "tolerance when the exact mean is not a dyadic rational, exactly otherwise",
-        "lists mix ints, decimals and one-letter strings; order statistics only on all-numeric or all-string lists",
+        "wide lists (ints of any size, every finite double as an exact dyadic rational): sum / prod / mean / median "
+        "are compared to the last bit exactly when the model says that every step of the left-to-right double "
+        "arithmetic is exact (LibOps!ExactSum, ExactProd, ExactMean, ExactMedian: all elements ints, or every element "
+        "and every intermediate result is a double), else within 1e-9 of the magnitudes involved (IEEE accuracy is "
+        "not the subject of the property)",
+        "lists mix ints, decimals and strings (any length, both cases, digits, a non-ASCII letter; ordered by code "
+        "point); order statistics only on all-numeric or all-string lists",
+        "pow: results of at most 600 bits (and every power of 0, 1, -1 and of +-10) are computed by TLC in limbs; longer "
+        "ones (exponents up to 2^16) are validated by TLC through necessary conditions (residues modulo 12 primes, "
+        "sign, length bracket) and compared with the host's exact power by the harness",
     ]
 
 
